@@ -120,17 +120,18 @@ CHECKS = {
         technique="Coq proof (double nested induction over schemas) + refutation witnesses by vm_compute + vm_compute correspondence + direct oracle",
         design="6 C15"),
     "C19": dict(
-        text="Theorems (Coq): mapping_targets_exported / mapping_keeps_names (reflection over the mapping and export "
-             "tables REGENERATED from the running code on every run; finite domain = the table); for all modules "
-             "(any number of statements/lines): rewrite_import_binds_same (each rewritten import binds the same local "
-             "names, mapped names from their v2 (module, name), unmapped from the original, star/relative untouched), "
-             "rewrite_splice_correct (line_disjoint source: every other statement preserved unchanged and in order), "
-             "rewrite_none_iff, rewrite_twice_stable; rewrite_splice_refuted witnesses known finding F21 (shared "
-             "physical line). Tie: model fed the ast view of generated modules, predicted statement list vs "
+        text="Theorems (Coq): mapping_targets_exported / mapping_keeps_names / mapped_name_importable (reflection over the "
+             "mapping and export tables REGENERATED from the running code on every run; finite domain = the table); for "
+             "all modules (any number of statements/lines, statements sharing physical lines in any way, multi-line "
+             "imports): rewrite_import_binds_same (each rewritten import binds the same local names, mapped names from "
+             "their v2 (module, name), unmapped from the original, star/relative untouched), rewrite_splice_correct "
+             "(ast_view ls = Some body -> the output reads back as exactly the rewritten statement sequence: every "
+             "other statement preserved unchanged and in order, also on shared lines - the line_disjoint hypothesis "
+             "was dropped after the repair of F21), rewrite_source_correct, rewrite_none_iff, rewrite_twice_stable. "
+             "Tie: model fed the ast view (line, piece) of generated modules, predicted statement list vs "
              "ast.parse(output); oracle on /repo: output parses, non-import statements identical, bindings equal.",
-        note=COMMON_NOTE + "Python's grammar / ast positions trusted. F21 is an open known finding (classified by "
-             "input shape: a rewritten from-import shares a physical line with other code); F27 (form-feed line "
-             "splitting) was repaired by a fix: commit.",
+        note=COMMON_NOTE + "Python's grammar / ast positions trusted (ast_view). F21 (shared physical line) and F27 "
+             "(form-feed line splitting) were repaired by fix: commits; the model mirrors the column splice.",
         technique="Coq proof (reflection on regenerated tables + splice/list induction) + vm_compute correspondence + direct oracle",
         design="6 C19"),
     "C13": dict(
